@@ -22,8 +22,8 @@ const (
 
 // PathSel is one selection step inside a root object.
 type PathSel struct {
-	Field int  // >=0: struct field index
-	Index *T   // non-nil: array index
+	Field int        // >=0: struct field index
+	Index *T         // non-nil: array index
 	Type  types.Type // type after this selection
 }
 
@@ -94,17 +94,17 @@ type Exec struct {
 	Opts    Options
 	typeIDs map[string]int
 	// statistics
-	Inlined map[string]bool
-	Havocs  map[string]bool
-	Assumed map[string]bool // library models / assumed contracts used
-	Bindings map[string]string // interface type -> concrete type (qualified)
-	funDecls map[string]string
-	funOrder []string
+	Inlined     map[string]bool
+	Havocs      map[string]bool
+	Assumed     map[string]bool   // library models / assumed contracts used
+	Bindings    map[string]string // interface type -> concrete type (qualified)
+	funDecls    map[string]string
+	funOrder    []string
 	globalCache map[*ssa.Global]*T
-	heapSorts map[string]string
-	heapOrder []string
-	axioms    []string
-	side      []T // axiom instances produced while building terms; flushed into the path condition
+	heapSorts   map[string]string
+	heapOrder   []string
+	axioms      []string
+	side        []T // axiom instances produced while building terms; flushed into the path condition
 }
 
 type Options struct {
